@@ -1,0 +1,50 @@
+//go:build verif
+
+package gortsplib
+
+import (
+	"github.com/bluenviron/gortsplib/v5/pkg/description"
+)
+
+// Verification hooks of the outbound write queues (build tag verif only):
+// they push a callback into the queue an owner currently holds, exactly like
+// the owner's own write paths do, so that the harness can stall the consumer
+// with a blocking item and probe the queue's capacity. Nothing here changes
+// behaviour.
+
+// VerifWriterPush pushes cb into the client's write queue.
+// hasWriter is false when the client currently has no queue.
+func (c *Client) VerifWriterPush(cb func() error) (pushed bool, hasWriter bool) {
+	c.writerMutex.RLock()
+	defer c.writerMutex.RUnlock()
+
+	if c.writer == nil {
+		return false, false
+	}
+	return c.writer.Push(cb), true
+}
+
+// VerifWriterPush pushes cb into the session's write queue.
+// hasWriter is false when the session currently has no queue.
+func (ss *ServerSession) VerifWriterPush(cb func() error) (pushed bool, hasWriter bool) {
+	ss.writerMutex.RLock()
+	defer ss.writerMutex.RUnlock()
+
+	if ss.writer == nil {
+		return false, false
+	}
+	return ss.writer.Push(cb), true
+}
+
+// VerifMulticastWriterPush pushes cb into the queue of the multicast writer of a media.
+// hasWriter is false when the stream currently has no multicast writer for that media.
+func (st *ServerStream) VerifMulticastWriterPush(medi *description.Media, cb func() error) (pushed bool, hasWriter bool) {
+	st.mutex.RLock()
+	defer st.mutex.RUnlock()
+
+	sm := st.medias[medi]
+	if sm == nil || sm.multicastWriter == nil {
+		return false, false
+	}
+	return sm.multicastWriter.writer.Push(cb), true
+}
